@@ -224,6 +224,17 @@ function __fresh(){ __buf = Buffer.from([1,2,3,4,5,6,7,8,9,10]); __url = new URL
 	if lib.Tier() != "thorough" && len(sweep) > 9000 {
 		sweep = sweep[:9000]
 	}
+	// require(): every spelling class of a module name - prefixes, dot segments that eat what stands before them, empty parts,
+	// trailing separators, NUL - alone and behind the node: prefix
+	var reqNames []string
+	for _, pre := range []string{"", "node:", "node:/", "./", "../", "/", "node:node:"} {
+		for _, nm := range []string{"", ".", "..", "/..", "x/..", "x/../..", "util/..", "util/", "util", "util//", "a//b", "../..", "./.", "\u0000", "nope", "buffer/../util", "x/../../..", ":", "node:"} {
+			reqNames = append(reqNames, `"`+pre+nm+`"`)
+		}
+	}
+	for _, nm := range reqNames {
+		sweep = append(sweep, [2]string{"require", "require(" + nm + ")"})
+	}
 	for _, sw := range sweep {
 		if hangs >= 3 {
 			break
@@ -363,6 +374,125 @@ function __fresh(){ __buf = Buffer.from([1,2,3,4,5,6,7,8,9,10]); __url = new URL
 			}
 			out.Add("crashed", desc, true, tags...)
 			out.Count("family", "reentrant-callback")
+			continue
+		}
+		if c%12 == 10 { // objects whose conversion hook IS a function of the library (no user-written function anywhere in the chain)
+			f := targets[r.Intn(len(targets))]
+			g := f
+			if r.Chance(35) {
+				g = targets[r.Intn(len(targets))]
+			}
+			base := r.Pick([]string{"{}", "{}", "[]", `new String("x")`, "Object.create(Buffer.prototype)", "Object.create(URLSearchParams.prototype)", "Object.create(URL.prototype)", "new Uint8Array(2)", "function(){}"})
+			hook := r.Pick([]string{"o.toString = G", "o.valueOf = G; o.toString = undefined", "o[Symbol.toPrimitive] = G", "o.toString = G; o.valueOf = G", "o[0] = o; o.toString = G", "o.toJSON = G; o.toString = G"})
+			setup := "var F = " + f.path + ", G = " + g.path + "; var o = " + base + "; " + hook + "; "
+			nargs := r.Intn(3)
+			var args []string
+			for i := 0; i < nargs; i++ {
+				if r.Chance(50) {
+					args = append(args, "o")
+				} else {
+					args = append(args, r.Pick([]string{"0", "1", `"a"`, `"utf8"`, "__buf", "undefined"}))
+				}
+			}
+			recv := "o"
+			if r.Chance(40) && f.recv != "" {
+				recv = f.recv
+				if len(args) == 0 {
+					args = []string{"o"}
+				} else {
+					args[r.Intn(len(args))] = "o"
+				}
+			}
+			var callExpr string
+			if f.ctor && r.Chance(60) {
+				callExpr = setup + "new F(" + strings.Join(append([]string{"o"}, args...), ", ") + ")"
+			} else {
+				callExpr = setup + "F.call(" + strings.Join(append([]string{recv}, args...), ", ") + ")"
+			}
+			script := "__fresh(); (function(){ try { " + callExpr + "; return 'ok' } catch (e) { return 'throw' } })()"
+			lib.Breadcrumb(outPath, callExpr)
+			res, hung := call(script)
+			id := len(out.Cases)
+			desc := map[string]interface{}{"call": callExpr, "outcome": res.kind}
+			tags := []string{"self-bound-conversion", f.path}
+			switch {
+			case hung:
+				out.Fail(id, "hang", desc, tags...)
+				vm = newVM()
+			case res.kind == "panic":
+				desc["panic"] = res.msg
+				out.Fail(id, "go-panic-escaped", desc, tags...)
+				vm = newVM()
+			case res.kind == "uncaught":
+				desc["error"] = res.msg
+				out.Fail(id, "uncatchable-error", desc, tags...)
+			}
+			out.Add("crashed", desc, true, tags...)
+			out.Count("family", "self-bound-conversion")
+			out.Count("outcome", res.kind)
+			continue
+		}
+		if c%12 == 8 || c%12 == 2 { // arguments whose conversion re-enters the library and changes the very object the call is working on
+			muts := []string{`__usp.delete("a")`, `__usp.delete("b")`, `__usp.delete("a"); __usp.delete("c")`, `__usp.delete("a"); __usp.delete("b"); __usp.delete("c")`,
+				`__usp.append("n", "1")`, `__usp.set("a", "9")`, `__usp.sort()`, `__url.search = ""`, `__url.search = "only=1"`, `__url.href = "http://other/?z=1"`,
+				`__url.searchParams.delete("x")`, `__url.searchParams.append("q", "1"); __url.searchParams.sort()`, `__url.hash = "h"; __url.port = "1"`, `__buf.fill(0)`, `__fresh()`}
+			ret := []string{`"a"`, `"b"`, `"c"`, `"x"`, `"y"`, `"1"`, `"http://z/?x=1&y=2"`, `"80"`, `"ftp"`, `"h:1"`, `0`, `2`}
+			mk := func() string {
+				m, rv := r.Pick(muts), r.Pick(ret)
+				if r.Chance(20) {
+					m += "; " + r.Pick(muts)
+				}
+				switch r.Intn(3) {
+				case 0:
+					return "({toString: function(){ " + m + "; return " + rv + " }})"
+				case 1:
+					return "({valueOf: function(){ " + m + "; return " + rv + " }, toString: undefined})"
+				default:
+					return "({[Symbol.toPrimitive]: function(){ " + m + "; return " + rv + " }})"
+				}
+			}
+			fams := []string{"URLSearchParams.prototype", "URLSearchParams.prototype", "URL.prototype", "Buffer.prototype", "Object.getPrototypeOf(__it)"}
+			fam := families[fams[r.Intn(len(fams))]]
+			t := fam[r.Intn(len(fam))]
+			recv := t.recv
+			if recv == "__usp" && r.Chance(40) {
+				recv = "__url.searchParams"
+			}
+			nargs := 1 + r.Intn(3)
+			var args []string
+			for i := 0; i < nargs; i++ {
+				switch {
+				case i == 0 && strings.HasPrefix(t.path, "URLSearchParams") && r.Chance(60):
+					args = append(args, r.Pick([]string{`"a"`, `"b"`, `"c"`, `"x"`})) // a name at the front, in the middle, at the end, absent
+				case r.Chance(70):
+					args = append(args, mk())
+				default:
+					args = append(args, r.Pick(ret))
+				}
+			}
+			callExpr := "(" + t.path + ").call(" + strings.Join(append([]string{recv}, args...), ", ") + ")"
+			// the lists are longer here, so that a name can sit behind entries the conversion removes
+			script := `__fresh(); __usp = new URLSearchParams("a=1&b=2&a=3&c=4&b=5"); __url = new URL("http://u:p@h.example:8080/a/b?x=1&y=2&x=3&z=4#f"); (function(){ try { ` + callExpr + `; return 'ok' } catch (e) { return 'throw' } })()`
+			lib.Breadcrumb(outPath, callExpr)
+			res, hung := call(script)
+			id := len(out.Cases)
+			desc := map[string]interface{}{"call": callExpr, "outcome": res.kind, "receiver_before": `__usp = "a=1&b=2&a=3&c=4&b=5", __url = "http://u:p@h.example:8080/a/b?x=1&y=2&x=3&z=4#f"`}
+			tags := []string{"reentrant-argument", t.path}
+			switch {
+			case hung:
+				out.Fail(id, "hang", desc, tags...)
+				vm = newVM()
+			case res.kind == "panic":
+				desc["panic"] = res.msg
+				out.Fail(id, "go-panic-escaped", desc, tags...)
+				vm = newVM()
+			case res.kind == "uncaught":
+				desc["error"] = res.msg
+				out.Fail(id, "uncatchable-error", desc, tags...)
+			}
+			out.Add("crashed", desc, true, tags...)
+			out.Count("family", "reentrant-argument")
+			out.Count("outcome", res.kind)
 			continue
 		}
 		if c%12 == 5 { // sequences: several methods of one object in a row, in random order (state one call leaves behind meets the next)
